@@ -604,6 +604,13 @@ type pipeConn struct {
 }
 
 func (c *pipeConn) RemoteAddr() net.Addr { return c.remote }
+
+// Write is a gate of its own ("io.write"): the server goroutine has left the handler and is about to
+// hand the reply to the transport - the schedule decides what the other goroutines do before it gets there.
+func (c *pipeConn) Write(b []byte) (int, error) {
+	dispatchHook("io.write", c, int64(len(b)))
+	return c.Conn.Write(b)
+}
 func (c *pipeConn) Close() error {
 	if c.closed.Swap(true) {
 		return &net.OpError{Op: "close", Net: "tcp", Addr: c.remote, Err: net.ErrClosed}
